@@ -106,12 +106,12 @@ static int cmp_units(const U32 &l, const U32 &r) {
 enum HOp {
     H_REINIT = 0, H_CTOR_SIZE, H_COPY_CTOR, H_MOVE_CTOR, H_COPY_ASSIGN, H_MOVE_ASSIGN, H_INSERT, H_GET, H_SUBSCRIPT,
     H_LOOKUP, H_REMOVE, H_REMOVE_INDEX, H_RENAME, H_MERGE_COPY, H_MERGE_MOVE, H_RESERVE, H_RESIZE, H_EXPECT,
-    H_COMPRESS, H_CLEAR, H_RESET, H_SORT, H_COUNT
+    H_COMPRESS, H_CLEAR, H_RESET, H_SORT, H_INSERT_ALIAS, H_COUNT
 };
 static const char *h_op_name[] = {"reinit", "ctor-size", "copy-ctor", "move-ctor", "copy-assign", "move-assign",
                                   "insert", "get", "subscript", "lookup", "remove", "remove-index", "rename",
                                   "merge-copy", "merge-move", "reserve", "resize", "expect", "compress", "clear",
-                                  "reset", "sort"};
+                                  "reset", "sort", "insert-alias"};
 
 struct Entry {
     U32     key;
@@ -352,6 +352,23 @@ struct HashW {
         return true;
     }
     bool do_get(Tab &, const U32 &, int64_t, bool, int, std::true_type) {
+        return false;
+    }
+    // insert whose VALUE argument refers to an element of the same table (copied before anything can grow)
+    bool do_insert_alias(Tab &h, const U32 &key, const U32 &old_key, int variant, std::false_type) {
+        ArenaText<C> t(key), o(old_key);
+        LibCall      lc;
+        const V     *ref = h.GetValue((const C *)o.ptr, (SizeT)o.len);
+        if (ref == nullptr) return false;
+        if (variant & 1) {
+            Key k{(const C *)t.ptr, (SizeT)t.len};
+            h.Insert(k, *ref);
+        } else {
+            h.Insert(Key{(const C *)t.ptr, (SizeT)t.len}, *ref);
+        }
+        return true;
+    }
+    bool do_insert_alias(Tab &, const U32 &, const U32 &, int, std::true_type) {
         return false;
     }
     void do_get_value_check(const Tab &h, const U32 &key, const std::vector<Entry> &m, int variant, std::false_type) {
@@ -676,6 +693,18 @@ struct HashW {
                 }
                 for (auto &e : m) graveyard.push_back(e.key);
                 m.clear();
+                break;
+            }
+            case H_INSERT_ALIAS: {
+                if (m.empty()) break;
+                Entry src = m[(size_t)((uint64_t)tok % m.size())];
+                if (h.Size() == h.Capacity()) qsim::probe("hash.insert-alias-when-full");
+                if (!do_insert_alias(h, key, src.key, (int)op.a[2], ListTag{})) break;
+                int at = find(m, key);
+                if (at >= 0)
+                    m[(size_t)at].tok = src.tok;
+                else
+                    m.push_back(Entry{key, src.tok});
                 break;
             }
             case H_SORT: {
